@@ -342,9 +342,33 @@ pub fn core(seed: u64, name: &str, o: &CoreOpts) -> (Scenario, SchedCfg) {
     if o.fut && g.rng.chance(1, 2) {
         s.spurious_poll = 40;
     }
+    common_faults(&mut g, &mut s);
     s.tags = common_tags(&s);
     let c = sched_for(&mut g.rng, &s, 30);
     (s, c)
+}
+
+/// Fault knobs every concurrent family draws from (swarm style: each is on in a random
+/// subset of the runs): spurious weak-CAS failures, slow clone / view, and a stall anchored
+/// at a rare branch (between claim and publish, inside a clone or view, at the add_stream
+/// snapshot, right after a reader was unlinked).
+pub fn common_faults(g: &mut Gen, s: &mut Scenario) {
+    if s.weak_cas_rate == 0 && g.rng.chance(3, 10) {
+        s.weak_cas_rate = 2500;
+    }
+    if s.slow_clone == 0 && g.rng.chance(1, 4) {
+        s.slow_clone = 1;
+        s.slow_view = 1;
+    }
+    if s.trap.is_none() && g.rng.chance(3, 10) {
+        let mut probes = vec![rt_probe::CLAIMED_BEFORE_PUBLISH, rt_probe::CLAIMED_BEFORE_PUBLISH];
+        if s.slow_clone > 0 {
+            probes.push(rt_probe::CLONE_MID);
+            probes.push(rt_probe::VIEW_MID);
+        }
+        let p = *g.rng.pick(&probes);
+        s.trap = Some((p, g.rng.below(6) as u32, g.rng.range(20, 600) as u32));
+    }
 }
 
 pub fn common_tags(s: &Scenario) -> Vec<String> {
@@ -509,6 +533,7 @@ fn quota_family(seed: u64, fut: bool) -> (Scenario, SchedCfg) {
     if fut && g.rng.chance(1, 2) {
         s.spurious_poll = 40;
     }
+    common_faults(&mut g, &mut s);
     s.tags = common_tags(&s);
     s.tags.push(if hold { "senders_hold".into() } else { "senders_drop".into() });
     let c = sched_for(&mut g.rng, &s, 40);
@@ -601,6 +626,7 @@ pub fn disconnect(seed: u64) -> (Scenario, SchedCfg) {
     if fut && g.rng.chance(1, 2) {
         s.spurious_poll = 40;
     }
+    common_faults(&mut g, &mut s);
     s.tags = common_tags(&s);
     let c = sched_for(&mut g.rng, &s, 40);
     (s, c)
@@ -632,6 +658,7 @@ pub fn seq_family(seed: u64, name: &str, force_fut: Option<bool>, o: &crate::seq
         1 => Teardown::ReceiversFirst,
         _ => Teardown::Mixed(g.rng.next() as u32),
     };
+    common_faults(&mut g, &mut s);
     s.tags = common_tags(&s);
     let mut c = SchedCfg::new(g.rng.next(), Strategy::Uniform);
     c.livelock_window = 100_000;
@@ -712,6 +739,7 @@ pub fn norecv(seed: u64) -> (Scenario, SchedCfg) {
     if fut && g.rng.chance(1, 3) {
         s.spurious_poll = 40;
     }
+    common_faults(&mut g, &mut s);
     s.tags = common_tags(&s);
     let c = sched_for(&mut g.rng, &s, 50);
     (s, c)
@@ -798,6 +826,7 @@ pub fn teardown(seed: u64) -> (Scenario, SchedCfg) {
         s.slow_clone = 1;
         s.slow_view = 1;
     }
+    common_faults(&mut g, &mut s);
     s.tags = common_tags(&s);
     let c = sched_for(&mut g.rng, &s, 30);
     (s, c)
@@ -912,6 +941,7 @@ pub fn addstream(seed: u64, sibling: bool) -> (Scenario, SchedCfg) {
     if g.rng.chance(1, 2) {
         s.trap = Some((rt_probe::ADD_STREAM_SNAPSHOT, g.rng.below(2) as u32, g.rng.range(20, 400) as u32));
     }
+    common_faults(&mut g, &mut s);
     s.tags = common_tags(&s);
     let c = sched_for(&mut g.rng, &s, 50);
     (s, c)
@@ -1011,6 +1041,7 @@ pub fn removal(seed: u64) -> (Scenario, SchedCfg) {
     if fut && g.rng.chance(1, 3) {
         s.spurious_poll = 40;
     }
+    common_faults(&mut g, &mut s);
     s.tags = common_tags(&s);
     let c = sched_for(&mut g.rng, &s, 50);
     (s, c)
@@ -1134,6 +1165,7 @@ pub fn churn(seed: u64) -> (Scenario, SchedCfg) {
     if fut && g.rng.chance(1, 3) {
         s.spurious_poll = 40;
     }
+    common_faults(&mut g, &mut s);
     s.tags = common_tags(&s);
     let c = sched_for(&mut g.rng, &s, 40);
     (s, c)
@@ -1273,6 +1305,11 @@ pub fn reclaim(seed: u64, counting: bool) -> (Scenario, SchedCfg) {
         });
     }
     s.probe = false;
+    common_faults(&mut g, &mut s);
+    if counting {
+        // a stalled thread keeps a stale epoch token and legitimately holds reclamation back
+        s.trap = None;
+    }
     s.tags = common_tags(&s);
     let mut c = if counting {
         // a thread that is stalled or starved keeps a stale epoch token and legitimately
@@ -1350,10 +1387,85 @@ pub fn seq_churn(seed: u64) -> (Scenario, SchedCfg) {
     s.probe = false;
     s.final_drain = false;
     s.teardown = Teardown::Mixed(g.rng.next() as u32);
+    common_faults(&mut g, &mut s);
     s.tags = common_tags(&s);
     s.tags.push(if early_drop { "early_drop_of_non_last_handle".into() } else { "no_early_drop".into() });
     let mut c = SchedCfg::new(g.rng.next(), Strategy::Uniform);
     c.livelock_window = 100_000;
     c.max_steps = 20_000_000;
+    (s, c)
+}
+
+/// `seq.sweep` (C09): exhaustive enumeration of all call sequences of a fixed depth over a
+/// 13-letter alphabet, on all four handle families and two capacities. `index` selects
+/// (configuration, sequence); `depth` letters are the base-13 digits of the sequence number.
+pub const SWEEP_ALPHABET: u64 = 13;
+pub const SWEEP_CONFIGS: u64 = 8;
+pub fn sweep_total(depth: u32) -> u64 {
+    SWEEP_ALPHABET.pow(depth) * SWEEP_CONFIGS
+}
+pub fn seq_sweep(index: u64, depth: u32) -> (Scenario, SchedCfg) {
+    use crate::seq::SeqCall as C;
+    let per = SWEEP_ALPHABET.pow(depth);
+    let cfg = index / per;
+    let mut code = index % per;
+    let flavour = if cfg & 1 == 0 { Flavour::Bcast } else { Flavour::Mpmc };
+    let fut = cfg & 2 != 0;
+    let cap = if cfg & 4 == 0 { 1 } else { 2 };
+    let q = QueueCfg {
+        flavour,
+        fut,
+        cap_req: cap,
+        wait: WaitK::Busy,
+        fut_spins: if fut && flavour == Flavour::Bcast { Some((0, 0)) } else { None },
+    };
+    let mut s = Scenario::new("seq.sweep", q);
+    let bc = flavour == Flavour::Bcast;
+    let mut calls = Vec::new();
+    for _ in 0..depth {
+        let letter = code % SWEEP_ALPHABET;
+        code /= SWEEP_ALPHABET;
+        calls.push(match letter {
+            0 => C::TrySend { h: 0 },
+            1 => C::TryRecv { h: 1 },
+            2 => C::CloneSender { h: 0, new: 4 },
+            3 => C::TrySend { h: 4 },
+            4 => C::DropSender { h: 0 },
+            5 => {
+                if bc {
+                    C::AddStream { h: 1, new: 2 }
+                } else {
+                    C::CloneRecv { h: 1, new: 2 }
+                }
+            }
+            6 => C::TryRecv { h: 2 },
+            7 => C::Unsub { h: 2 },
+            8 => C::IntoSingle { h: 1 },
+            9 => {
+                if fut {
+                    C::Poll { h: 1 }
+                } else {
+                    C::TryRecvView { h: 1 }
+                }
+            }
+            10 => C::IntoMulti { h: 1 },
+            11 => C::DropRecv { h: 1 },
+            _ => {
+                if fut {
+                    C::StartSend { h: 0 }
+                } else {
+                    C::TryIterNext { h: 1, with: false }
+                }
+            }
+        });
+    }
+    s.seq = Some(calls);
+    s.probe = false;
+    s.final_drain = false;
+    s.teardown = if index & 1 == 0 { Teardown::SendersFirst } else { Teardown::ReceiversFirst };
+    s.tags = common_tags(&s);
+    s.tags.push(format!("sweep_depth={}", depth));
+    let mut c = SchedCfg::new(index, Strategy::Uniform);
+    c.livelock_window = 100_000;
     (s, c)
 }
